@@ -61,15 +61,34 @@ def class_pred(st, v, name):
     if name == 'int': return z3.Or(Val.is_i(v), Val.is_b(v))
     if name == 'float': return Val.is_r(v)
     if name == 'type': return Val.is_cls(v)
+    if name == 'NoneType': return Val.is_none(v)
     name = name.split('.')[-1]
     if name not in LAT.bases:
         raise Unsupported('isinstance against ' + name)
     return z3.And(Val.is_ref(v), sub(TYP(Val.addr(v)), K(name)))
 
 
+SIX_TYPES = {'six.string_types': ['str'], 'six.text_type': ['str'], 'six.binary_type': ['bytes'], 'six.integer_types': ['int'], 'six.class_types': ['type'],
+             'Number': ['int', 'float', 'bool'], 'numbers.Number': ['int', 'float', 'bool'], 'type(None)': ['NoneType'], 'basestring': ['str']}
+
+
+def flatten_types(ex, st, t, depth=0):
+    """class names denoted by the second argument of isinstance: a class, a tuple literal, a sum of tuples, a module-level constant"""
+    if depth > 4: raise Unsupported('isinstance type expression too deep')
+    txt = ast.unparse(t)
+    if txt in SIX_TYPES: return list(SIX_TYPES[txt])
+    if isinstance(t, ast.Tuple):
+        return [n for x in t.elts for n in flatten_types(ex, st, x, depth + 1)]
+    if isinstance(t, ast.BinOp) and isinstance(t.op, ast.Add):
+        return flatten_types(ex, st, t.left, depth + 1) + flatten_types(ex, st, t.right, depth + 1)
+    if isinstance(t, ast.Name) and st.lookup(t.id) is None:
+        m = ex.modctx(st)
+        if t.id in m.consts: return flatten_types(ex, st, m.consts[t.id], depth + 1)
+    return [txt]
+
+
 def b_isinstance(ex, st, pos, kw, node, star, dstar):
-    t = node.args[1]
-    names = [ast.unparse(x) for x in t.elts] if isinstance(t, ast.Tuple) else [ast.unparse(t)]
+    names = flatten_types(ex, st, node.args[1])
     return val(st, B(z3.Or(*[class_pred(st, pos[0], n) for n in names])))
 
 
@@ -213,6 +232,33 @@ def l_reduce(ex, st, pos, kw, node, star, dstar):
     return outs + [(s, ('val', v)) for s, v in states]
 
 
+def b_round(ex, st, pos, kw, node, star, dstar):
+    """round(x, n) for a constant n: some real within half a unit of the n-th decimal of x (ties: banker's rounding, left open)"""
+    x = pos[0]; n = pos[1] if len(pos) > 1 else kw.get('ndigits')
+    nd = 0
+    if n is not None:
+        nv = z3.simplify(Val.iv(n))
+        if not z3.is_int_value(nv): raise Unsupported('round with a computed number of digits')
+        nd = nv.as_long()
+    outs = []
+    sN, sBad = ex.fork(st, is_num(x))
+    if sBad is not None: outs.append(ex.raise_(sBad, 'TypeError'))
+    if sN is not None:
+        r = fresh('rounded', z3.RealSort()); half = z3.RealVal(5) / z3.RealVal(10 ** (nd + 1))
+        sN.assume(z3.And(r - num(x) <= half, num(x) - r <= half))
+        outs.append((sN, ('val', Val.r(r) if n is not None else I(z3.ToInt(r)))))
+    return outs
+
+
+def l_islice(ex, st, pos, kw, node, star, dstar):
+    o = st.alloc('islice'); st.wr(o, 'src', pos[0]); st.wr(o, 'stop', pos[1] if len(pos) == 2 else (pos[2] if len(pos) > 2 else NONE))
+    if len(pos) > 2: raise Unsupported('islice with a start')
+    return val(st, o)
+
+
+LAT.add('islice', ['iterator'])
+
+
 def noop(ex, st, pos, kw, node, star, dstar):
     return val(st, NONE)
 
@@ -352,7 +398,7 @@ def install(ex):
     L.update({'builtins.len': b_len, 'builtins.isinstance': b_isinstance, 'builtins.callable': b_callable, 'builtins.str': b_str,
               'builtins.repr': b_repr, 'builtins.bool': b_bool, 'builtins.list': b_list, 'builtins.tuple': b_list, 'builtins.dict': b_dict,
               'builtins.type': b_type, 'builtins.iter': b_iter, 'builtins.hasattr': b_hasattr, 'builtins.enumerate': b_enumerate,
-              'functools.reduce': l_reduce, 'builtins.int': b_int, 'builtins.float': b_float, 'builtins.bytes': b_bytes, 'builtins.set': b_set, 'builtins.frozenset': b_set,
+              'functools.reduce': l_reduce, 'builtins.round': b_round, 'itertools.islice': l_islice, 'builtins.int': b_int, 'builtins.float': b_float, 'builtins.bytes': b_bytes, 'builtins.set': b_set, 'builtins.frozenset': b_set,
               'time.time': l_time, 'jsonpickle.encode': l_encode_nondet, 'datetime.datetime.utcnow': l_utcnow, 'uuid.uuid1': l_uuid1,
               'collections.Counter': l_counter, 'collections.OrderedDict': l_ordereddict, 'threading.local': l_threadlocal,
               'six.text_type': b_str})
